@@ -8,21 +8,29 @@
 //	      to the grouping the generator's own reading of the scoping rules names (yang.FindGrouping
 //	      through the AST against generator knowledge); the tree of every module equals the
 //	      generator's inlined expansion (names, kinds, nesting, defaults, list attributes, key,
-//	      mandatory, config, resolved type kind and identity base); the subtree under every using
-//	      node is a faithful copy of ToEntry(grouping) reached through the AST.
-//	(iii) aliasing: no *Entry, *ListAttr, *RPCEntry object and no Default backing array is reachable
-//	      twice from the module trees, submodule trees and cached grouping entries; instances not
+//	      mandatory, config, resolved type kind and identity base, and Entry.Extra / Entry.Exts: the
+//	      node's own if-feature / when / status / reference values and extension statements
+//	      followed, per enclosing uses from the innermost outwards, by those of the grouping
+//	      statement and of the uses statement - what merge appends, defect D62); the subtree under
+//	      every using node is a faithful copy of ToEntry(grouping) reached through the AST, its
+//	      Extra / Exts starting with (below the copied node: equal to) the grouping node's own.
+//	(iii) aliasing: no *Entry, *ListAttr, *RPCEntry object and no backing array of Default, of an
+//	      Extra value slice or of Exts is reachable twice from the module trees, submodule trees
+//	      and cached grouping entries; instances not
 //	      touched by the mutation, and all grouping entries, are identical in the base run and in
 //	      the mutated run; changing one instance directly through the exported fields leaves every
 //	      independent instance and every grouping entry unchanged; a module loaded afterwards that
 //	      uses a grouping once more gets a faithful copy.
 //
-// Any failure of (ii) or (iii) is a "spec" disagreement with verdict "violates".
+// Inputs: corpus/C06/*.json first (hand-written witnesses with a table of expected Extra / Exts),
+// then the seeded sets. Any failure of (ii) or (iii) is a "spec" disagreement with verdict "violates".
 package main
 
 import (
 	"encoding/json"
 	"fmt"
+	"os"
+	"path/filepath"
 	"reflect"
 	"sort"
 	"strings"
@@ -45,6 +53,8 @@ type know struct {
 	BaseNames []string        `json:"base_names,omitempty"`
 	BaseTexts []string        `json:"base_texts,omitempty"`
 	Late      *gen.C06Late    `json:"late,omitempty"`
+	// corpus cases: hand-written Extra / Exts of selected nodes (path as Entry.Path prints it)
+	ExpectExtras []gen.C06Rec `json:"expect_extras,omitempty"`
 }
 
 // ---- AST access ---------------------------------------------------------------------------
@@ -139,9 +149,31 @@ func la(e *yang.Entry) string {
 	return fmt.Sprintf("%d:%d:%d", e.ListAttr.MinElements, e.ListAttr.MaxElements, u)
 }
 
+// extrasOf reads Entry.Extra (the keys the generator predicts) and Entry.Exts of e.
+func extrasOf(e *yang.Entry) (map[string][]string, []string) {
+	var extra map[string][]string
+	for _, k := range gen.C06ExtraKeys {
+		for _, v := range e.Extra[k] {
+			s := fmt.Sprintf("?%T", v)
+			if x, ok := v.(*yang.Value); ok && x != nil {
+				s = x.Name
+			}
+			if extra == nil {
+				extra = map[string][]string{}
+			}
+			extra[k] = append(extra[k], s)
+		}
+	}
+	var exts []string
+	for _, st := range e.Exts {
+		exts = append(exts, st.Keyword+" "+st.Argument)
+	}
+	return extra, exts
+}
+
 // render prints e and everything below it. With fix, non-case children of a choice are shown
 // below the implicit case FixChoice inserts (a grouping's own entry never went through FixChoice).
-func render(sb *strings.Builder, e *yang.Entry, fix bool) {
+func render(sb *strings.Builder, e *yang.Entry, fix, withExtras bool) {
 	if e == nil {
 		sb.WriteString("(nil)")
 		return
@@ -152,33 +184,48 @@ func render(sb *strings.Builder, e *yang.Entry, fix bool) {
 	}
 	fmt.Fprintf(sb, "(%s %s dir=%t cfg=%s mand=%s def=%q la=%s key=%q units=%q desc=%q type=%s", e.Name, e.Kind, e.Dir != nil,
 		tri(e.Config), tri(e.Mandatory), e.Default, la(e), e.Key, e.Units, e.Description, ty)
+	if withExtras {
+		// every key of Extra, values by argument text where they have one
+		for _, k := range lib.SortedKeys(e.Extra) {
+			fmt.Fprintf(sb, " extra[%s]=", k)
+			for _, v := range e.Extra[k] {
+				if x, ok := v.(*yang.Value); ok && x != nil {
+					fmt.Fprintf(sb, "%q,", x.Name)
+				} else {
+					fmt.Fprintf(sb, "%T,", v)
+				}
+			}
+		}
+		_, exts := extrasOf(e)
+		fmt.Fprintf(sb, " exts=%q", exts)
+	}
 	for _, k := range lib.SortedKeys(e.Dir) {
 		ch := e.Dir[k]
 		sb.WriteByte(' ')
 		if fix && e.Kind == yang.ChoiceEntry && ch.Kind != yang.CaseEntry && len(e.Errors) == 0 {
 			fmt.Fprintf(sb, "(%s %s dir=true cfg=%s mand=unset def=[] la=- key=\"\" units=\"\" desc=\"\" type=- ", ch.Name, yang.CaseEntry, tri(ch.Config))
-			render(sb, ch, fix)
+			render(sb, ch, fix, withExtras)
 			sb.WriteByte(')')
 			continue
 		}
-		render(sb, ch, fix)
+		render(sb, ch, fix, withExtras)
 	}
 	if e.RPC != nil {
 		sb.WriteString(" rpc")
 		if e.RPC.Input != nil {
 			sb.WriteString(" in=")
-			render(sb, e.RPC.Input, fix)
+			render(sb, e.RPC.Input, fix, withExtras)
 		}
 		if e.RPC.Output != nil {
 			sb.WriteString(" out=")
-			render(sb, e.RPC.Output, fix)
+			render(sb, e.RPC.Output, fix, withExtras)
 		}
 	}
 	sb.WriteByte(')')
 }
 
 // contributed renders the children of e named in names (sorted), one string per name.
-func contributed(e *yang.Entry, names []string, fix bool) []string {
+func contributed(e *yang.Entry, names []string, fix, withExtras bool) []string {
 	ns := append([]string{}, names...)
 	sort.Strings(ns)
 	out := make([]string, 0, len(ns))
@@ -188,7 +235,7 @@ func contributed(e *yang.Entry, names []string, fix bool) []string {
 		if e == nil || e.Dir == nil || e.Dir[n] == nil {
 			sb.WriteString("(absent)")
 		} else {
-			render(&sb, e.Dir[n], fix)
+			render(&sb, e.Dir[n], fix, withExtras)
 		}
 		out = append(out, sb.String())
 	}
@@ -270,7 +317,7 @@ func siteDumps(ms *yang.Modules, sites []gen.C06Site) [][]string {
 	out := make([][]string, len(sites))
 	for i, s := range sites {
 		if e := entryAt(moduleTree(ms, s.Module), s.Path); e != nil {
-			out[i] = contributed(e, s.Names, false)
+			out[i] = contributed(e, s.Names, false, true)
 		}
 	}
 	return out
@@ -280,7 +327,7 @@ func groupingDumps(ix astIndex) map[string]string {
 	out := map[string]string{}
 	for loc, g := range ix.groupings {
 		var sb strings.Builder
-		render(&sb, yang.ToEntry(g), true)
+		render(&sb, yang.ToEntry(g), true, true)
 		out[loc] = sb.String()
 	}
 	return out
@@ -360,8 +407,8 @@ func checkCopies(k know, ms *yang.Modules, ix astIndex, f findings, skipTouched 
 			f.add("copy: using node /%s/%s does not exist", s.Module, strings.Join(s.Path, "/"))
 			continue
 		}
-		want := contributed(yang.ToEntry(g), s.Names, true)
-		got := contributed(e, s.Names, true)
+		want := contributed(yang.ToEntry(g), s.Names, true, false)
+		got := contributed(e, s.Names, true, false)
 		if d := firstDiff(got, want); d != "" {
 			f.add("copy: the instance of grouping %s (%s) under /%s/%s differs from the grouping's own entry: %s", s.GName, s.GLoc, s.Module,
 				strings.Join(s.Path, "/"), d)
@@ -384,6 +431,7 @@ func checkExpansion(k know, ms *yang.Modules, f findings) {
 				r.IdBase = lib.IdentityKey(e.Type.IdentityBase)
 			}
 		}
+		r.Extra, r.Exts = extrasOf(e)
 		got = append(got, r)
 		for _, key := range lib.SortedKeys(e.Dir) {
 			walk(e.Dir[key])
@@ -424,6 +472,7 @@ func checkSharing(ms *yang.Modules, ix astIndex, f findings) {
 	seenLA := map[*yang.ListAttr]string{}
 	seenRPC := map[*yang.RPCEntry]string{}
 	seenDef := map[*string]string{}
+	seenArr := map[unsafe.Pointer]string{}
 	var walk func(e *yang.Entry, path string)
 	walk = func(e *yang.Entry, path string) {
 		if e == nil {
@@ -446,6 +495,24 @@ func checkSharing(ms *yang.Modules, ix astIndex, f findings) {
 				f.add("aliasing: Default backing array shared between %s and %s", p, path)
 			}
 			seenDef[d] = path
+		}
+		// merge appends to the Extra value slices and to Exts of a copied node: a backing array
+		// reachable from two entries is a slot two appends can both write
+		for _, k := range lib.SortedKeys(e.Extra) {
+			if v := e.Extra[k]; cap(v) > 0 {
+				d := unsafe.Pointer(unsafe.SliceData(v))
+				if p, ok := seenArr[d]; ok {
+					f.add("aliasing: backing array of Extra[%q] (len %d, cap %d) at %s is also that of %s", k, len(v), cap(v), path, p)
+				}
+				seenArr[d] = fmt.Sprintf("Extra[%q] at %s", k, path)
+			}
+		}
+		if cap(e.Exts) > 0 {
+			d := unsafe.Pointer(unsafe.SliceData(e.Exts))
+			if p, ok := seenArr[d]; ok {
+				f.add("aliasing: backing array of Exts (len %d, cap %d) at %s is also that of %s", len(e.Exts), cap(e.Exts), path, p)
+			}
+			seenArr[d] = "Exts at " + path
 		}
 		for _, k := range lib.SortedKeys(e.Dir) {
 			walk(e.Dir[k], path+"/"+k)
@@ -492,6 +559,16 @@ func scribble(e *yang.Entry) {
 	e.Config = yang.TSFalse
 	e.Mandatory = yang.TSTrue
 	e.Units = "scribbled"
+	for _, k := range lib.SortedKeys(e.Extra) {
+		if len(e.Extra[k]) > 0 {
+			e.Extra[k][0] = &yang.Value{Name: "SCRIBBLED"}
+		}
+		e.Extra[k] = append(e.Extra[k], &yang.Value{Name: "SENTINEL"})
+	}
+	if len(e.Exts) > 0 {
+		e.Exts[0] = &yang.Statement{Keyword: "scribbled:ext", Argument: "x"}
+	}
+	e.Exts = append(e.Exts, &yang.Statement{Keyword: "sentinel:ext", Argument: "x"})
 	for _, k := range lib.SortedKeys(e.Dir) {
 		scribble(e.Dir[k])
 	}
@@ -605,10 +682,96 @@ func checkLate(k know, ms *yang.Modules, f findings) {
 		f.add("late use: grouping or using node missing")
 		return
 	}
-	if d := firstDiff(contributed(e, k.Late.Names, true), contributed(yang.ToEntry(g), k.Late.Names, true)); d != "" {
+	if d := firstDiff(contributed(e, k.Late.Names, true, false), contributed(yang.ToEntry(g), k.Late.Names, true, false)); d != "" {
 		f.add("late use: the instance created after the first Process differs from the grouping's own entry: %s", d)
 	}
 	checkSharing(ms, ix, f)
+}
+
+// checkExtrasLaw: Extra[k] and Exts of a node that arrived through uses start with the grouping
+// node's own values (what follows are the values of the enclosing groupings and uses statements,
+// which the reference expansion predicts exactly); below the copied node they are the grouping's.
+func checkExtrasLaw(k know, ms *yang.Modules, ix astIndex, f findings, skipTouched bool) {
+	isPrefix := func(own, got []string) bool {
+		if len(own) > len(got) {
+			return false
+		}
+		for i := range own {
+			if own[i] != got[i] {
+				return false
+			}
+		}
+		return true
+	}
+	var cmp func(inst, ref *yang.Entry, top bool, where string)
+	cmp = func(inst, ref *yang.Entry, top bool, where string) {
+		if inst == nil || ref == nil {
+			return
+		}
+		ie, ix := extrasOf(inst)
+		re, rx := extrasOf(ref)
+		for _, key := range gen.C06ExtraKeys {
+			ok := isPrefix(re[key], ie[key])
+			if !top {
+				ok = ok && len(re[key]) == len(ie[key])
+			}
+			if !ok {
+				f.add("extras: Extra[%q] of %s is %q, the grouping's own node has %q (top-level copy: %t)", key, where, ie[key], re[key], top)
+			}
+		}
+		if ok := isPrefix(rx, ix) && (top || len(rx) == len(ix)); !ok {
+			f.add("extras: Exts of %s is %q, the grouping's own node has %q (top-level copy: %t)", where, ix, rx, top)
+		}
+		for _, name := range lib.SortedKeys(ref.Dir) {
+			ic := inst.Dir[name]
+			if ic != nil && ref.Kind == yang.ChoiceEntry && ref.Dir[name].Kind != yang.CaseEntry && ic.Kind == yang.CaseEntry {
+				ic = ic.Dir[name]
+			}
+			cmp(ic, ref.Dir[name], false, where+"/"+name)
+		}
+		if ref.RPC != nil && inst.RPC != nil {
+			cmp(inst.RPC.Input, ref.RPC.Input, false, where+"/input")
+			cmp(inst.RPC.Output, ref.RPC.Output, false, where+"/output")
+		}
+	}
+	for _, s := range k.Sites {
+		if skipTouched && s.Touched {
+			continue
+		}
+		g := ix.groupings[s.GLoc]
+		e := entryAt(moduleTree(ms, s.Module), s.Path)
+		if g == nil || e == nil {
+			continue
+		}
+		ge := yang.ToEntry(g)
+		for _, n := range s.Names {
+			if e.Dir[n] != nil && ge.Dir[n] != nil {
+				cmp(e.Dir[n], ge.Dir[n], true, "/"+s.Module+"/"+strings.Join(append(append([]string{}, s.Path...), n), "/"))
+			}
+		}
+	}
+}
+
+// checkCorpus: a hand-written case: the sharing walk, and the Extra / Exts of the nodes its table names.
+func checkCorpus(k know, ms *yang.Modules, ix astIndex, f findings) {
+	checkSharing(ms, ix, f)
+	for _, want := range k.ExpectExtras {
+		var e *yang.Entry
+		parts := strings.Split(strings.TrimPrefix(want.Path, "/"), "/")
+		if len(parts) > 0 {
+			e = entryAt(moduleTree(ms, parts[0]), parts[1:])
+		}
+		if e == nil {
+			f.add("corpus: no node %s", want.Path)
+			continue
+		}
+		extra, exts := extrasOf(e)
+		a, _ := json.Marshal(map[string]any{"extra": extra, "exts": exts})
+		b, _ := json.Marshal(map[string]any{"extra": want.Extra, "exts": want.Exts})
+		if string(a) != string(b) {
+			f.add("extras: %s has %s, expected %s", want.Path, a, b)
+		}
+	}
 }
 
 func oracle(c rescorr.Case, ms *yang.Modules, errs []error, out *rescorr.GoOut) {
@@ -618,12 +781,19 @@ func oracle(c rescorr.Case, ms *yang.Modules, errs []error, out *rescorr.GoOut) 
 	}
 	f := findings{out}
 	ix := indexAST(ms)
+	if k.Variant == "corpus" {
+		if len(errs) == 0 {
+			checkCorpus(k, ms, ix, f)
+		}
+		return
+	}
 	checkBinding(k, ix, f)
 	if len(errs) > 0 {
 		return
 	}
 	mut := k.Variant == "mut"
 	checkCopies(k, ms, ix, f, mut)
+	checkExtrasLaw(k, ms, ix, f, mut)
 	if !mut {
 		checkExpansion(k, ms, f)
 	}
@@ -661,8 +831,64 @@ func main() {
 	siteKinds := map[string]int64{}
 	mutKinds := map[string]int64{}
 	var maxNest int
+	var extrasNodes, extrasUses, capSensitive int64
 	distinct := lib.NewDistinct()
 	var clean, cleanMut, withErr, outside, skipped, sitesChecked, untouchedChecked, total int64
+	// corpus first: hand-written witnesses (corpus/C06/*.json) with a table of expected Extra / Exts
+	var corpusN, corpusClean int64
+	{
+		paths, _ := filepath.Glob("/verif/corpus/C06/*.json")
+		sort.Strings(paths)
+		var cases []rescorr.Case
+		for _, p := range paths {
+			raw, err := os.ReadFile(p)
+			if err != nil {
+				continue
+			}
+			var cc struct {
+				Names        []string     `json:"names"`
+				Texts        []string     `json:"texts"`
+				ExpectExtras []gen.C06Rec `json:"expect_extras"`
+			}
+			if err := json.Unmarshal(raw, &cc); err != nil || len(cc.Names) == 0 {
+				lib.Fatal("corpus file %s: %v", p, err)
+			}
+			kb, _ := json.Marshal(know{Variant: "corpus", ExpectExtras: cc.ExpectExtras})
+			cases = append(cases, rescorr.Case{Names: cc.Names, Texts: cc.Texts, Extra: map[string]string{"c06": string(kb), "origin": "corpus/" + filepath.Base(p)}})
+		}
+		for _, o := range rescorr.RunAll(cases, f) {
+			corpusN++
+			origin := o.Case.Extra["origin"]
+			switch {
+			case o.Crashed:
+				res.AddDisagreement(lib.Disagreement{Kind: "crash", Input: o.Case.Texts, Go: o.CrashMsg, SpecVerdict: "violates",
+					What: origin + ": goyang crashed or hung: " + firstLine(o.CrashMsg), Replay: o.Case})
+				continue
+			case o.Skipped != "" || o.Outside != "":
+				res.AddDisagreement(lib.Disagreement{Kind: "obligation", Input: o.Case.Texts, Go: o.Go.ParseErr + o.Outside, SpecVerdict: "",
+					What: origin + ": corpus case not accepted (" + o.Go.ParseErr + o.Outside + ")", Replay: o.Case})
+				continue
+			}
+			if len(o.Go.Findings) > 0 {
+				res.AddDisagreement(lib.Disagreement{Kind: "spec", Input: o.Case.Texts, Go: o.Go.Findings, SpecVerdict: "violates",
+					What: origin + ": " + o.Go.Findings[0], Replay: o.Case})
+			}
+			g := lib.Project(o.Go.Dump, keys, true)
+			md := lib.Project(o.Model, keys, true)
+			if d := rescorr.Diff(g, md); d != "" {
+				res.AddDisagreement(lib.Disagreement{Kind: "correspondence", Input: o.Case.Texts, Go: g, Model: md, SpecVerdict: "",
+					What: origin + ": resolver differs from the model: " + d, Replay: o.Case})
+			}
+			if rescorr.HasErrors(o.Go.Dump) {
+				res.AddDisagreement(lib.Disagreement{Kind: "spec", Input: o.Case.Texts, Go: o.Go.Dump, SpecVerdict: "violates",
+					What: origin + ": corpus case does not process cleanly: " + o.Go.Dump[0], Replay: o.Case})
+				continue
+			}
+			corpusClean++
+			distinct.Add(strings.Join(o.Case.Texts, "\x00"))
+		}
+		total += corpusN
+	}
 	const batch = 4000
 	for lo := 0; lo < n; lo += batch {
 		hi := lo + batch
@@ -686,6 +912,9 @@ func main() {
 			for _, u := range gc.Uses {
 				siteKinds[u.Site]++
 			}
+			extrasNodes += int64(gc.ExtrasNodes)
+			extrasUses += int64(gc.ExtrasUses)
+			capSensitive += int64(gc.CapSensitive)
 			if gc.MaxNest > maxNest {
 				maxNest = gc.MaxNest
 			}
@@ -762,12 +991,18 @@ func main() {
 	}
 	res.Evaluations = total
 	res.DistinctNontrivial = distinct.Len()
-	res.Rule = "seeded grouping-heavy module sets (harness/gen/c06.go: 1-3 modules, 0-3 submodules each with include chains, groupings at " +
+	res.Rule = "corpus/C06 (witnesses of D62), then seeded grouping-heavy module sets (harness/gen/c06.go: 1-3 modules, 0-3 submodules each with include chains, groupings at " +
 		"module level, in submodules, in containers/lists/operations/notifications and inside groupings, tiny name pools so that shadowing is " +
 		"frequent, nested uses, typedef t and identity idn defined per module so that resolving in the wrong scope shows, every reachable " +
-		"grouping given at least two instances), each as a base variant and as a variant in which one or two instances are changed by augments " +
+		"grouping given at least two instances; nodes, groupings and uses statements carrying 0-4 if-feature and extension statements - three " +
+		"being the case in which append leaves one spare slot - and when / status / reference / description), each as a base variant and as a variant in which one or two instances are changed by augments " +
 		"and deviations (not-supported, add, replace, delete); distinct_nontrivial = distinct variants (by text) that process cleanly and " +
 		"contain a grouping with at least two instances, i.e. on which the copy, sharing and independence oracles actually compare instances"
+	res.Distribution["nodes_with_predicted_Extra_or_Exts"] = extrasNodes
+	res.Distribution["uses_statements_with_extras"] = extrasUses
+	res.Distribution["copied_nodes_with_3_own_values_and_a_4th_appended"] = capSensitive
+	res.Distribution["corpus_cases"] = corpusN
+	res.Distribution["corpus_cases_clean"] = corpusClean
 	res.Distribution["clean_base_variants"] = clean
 	res.Distribution["clean_mutated_variants"] = cleanMut
 	res.Distribution["variants_with_errors"] = withErr
